@@ -5,6 +5,7 @@ import dets
 import gen
 from common import Outcome, np, rng_for, run_driver
 
+RULE_ADDENDA = ('two history callbacks on one detector; 10 300+ updates with a callback; logs right after reset()')
 LEVEL = "proof"
 EXPLANATION = ("Theorems (Lean): every tracked list gets exactly one entry per update and entry j is the snapshot of its own variable, names are registered once, reset "
                "empties, the observer never feeds back into the detector (frame lemma), the reset callback resets iff p <= alpha and hands back the pre-reset result. "
